@@ -57,6 +57,13 @@ def realisations(kind, d):
         rule("config is a list", "config:\n- a\n" + BASE)
         rule("config is a string", "config: x\n" + BASE)
         rule("config is null", "config:\n" + BASE)
+    elif kind == "range_wrong_type":
+        # the verdict of this rule depends on the range (the call is found only if it is tagged)
+        good = "config:\n  valid_addr_range:\n    min: '0x401000'\n    max: '0x401fff'\npattern:\n- push\n- call:\n  - valid_addr\n"
+        rule("range bounds are unquoted hexadecimal (YAML integers)", good.replace("'0x401000'", "0x401000").replace("'0x401fff'", "0x401fff"))
+        rule("range min is an unquoted decimal-looking address", good.replace("'0x401000'", "401000"))
+        rule("range is a list", "config:\n  valid_addr_range:\n  - '0x401000'\n  - '0x401fff'\npattern:\n- push\n- call:\n  - valid_addr\n")
+        rule("range max is missing", "config:\n  valid_addr_range:\n    min: '0x401000'\npattern:\n- push\n- call:\n  - valid_addr\n")
     elif kind == "flag_wrong_type":
         rule("mnemonics-full-match is a string", "config:\n  mnemonics-full-match: 'yes'\n" + BASE)
         rule("operands-full-match is an int", "config:\n  operands-full-match: 1\n" + BASE)
@@ -74,6 +81,10 @@ def realisations(kind, d):
     elif kind == "macro_undefined":
         rule("undefined macro as item", "macros:\n- name: '@a'\n  pattern: push\n" + BASE + "- '@b'\n")
         rule("undefined macro as operand", "macros:\n- name: '@a'\n  pattern: push\n" + BASE + "- ret:\n  - '@b'\n")
+        rule("undefined macro as item key with times", "macros:\n- name: '@a'\n  pattern: push\n" + BASE + "- '@b':\n    times: 2\n")
+        rule("undefined macro as item key with operands", "macros:\n- name: '@a'\n  pattern: push\n" + BASE + "- '@b':\n  - '%rax'\n")
+        rule("undefined macro in a $deref field", "macros:\n- name: '@a'\n  pattern: push\n" + BASE
+             + "- mov:\n  - $deref:\n      main_reg: '@b'\n")
         rule("undefined macro, definitions from an extra file", BASE + "- '@b'\n",
              macros=["macros:\n- name: '@a'\n  pattern: push\n"])
     elif kind == "macro_undefined_nodefs":
